@@ -26,10 +26,16 @@ func (e RawEnc) Unmarshal(buf []byte, msg drpc.Message) error {
 }
 
 // FailEnc rejects every message it is asked to decode (C10: undecodable request).
-type FailEnc struct{ Msg string }
+type FailEnc struct {
+	Msg string
+	W   *World // when set, the (intact) message it was shown counts as delivered
+}
 
 func (FailEnc) Marshal(msg drpc.Message) ([]byte, error) { return *(msg.(*[]byte)), nil }
 func (e FailEnc) Unmarshal(buf []byte, msg drpc.Message) error {
+	if e.W != nil {
+		e.W.noteDelivery(buf)
+	}
 	return fmt.Errorf("%s", e.Msg)
 }
 
